@@ -11000,11 +11000,11 @@ tsk_table_collection_check_tree_integrity(const tsk_table_collection_t *self)
     }
     tsk_bug_assert(j == num_edges);
     while (k < num_edges) {
-        /* At this point it must be that used_edges[O[k]] == 1,
-         * since otherwise we would have added a different edge twice,
-         * and so hit the error above. */
+        /* Every edge has been inserted exactly once at this point, but the
+         * removal order may still name one of the remaining edges twice
+         * (and so another one never). */
         e = O[k];
-        if (edge_right[e] != sequence_length) {
+        if (used_edges[e] != 1 || edge_right[e] != sequence_length) {
             ret = tsk_trace_error(TSK_ERR_TABLES_BAD_INDEXES);
             goto out;
         }
